@@ -1,4 +1,5 @@
 import json
+import gzip
 import zlib
 
 from inspect import getmodule
@@ -216,13 +217,20 @@ class Experiment:
         #written member). We keep the complete records and, if anything else is in the file, rewrite the
         #file so it only holds them. Without this new records would be appended to the partial record.
 
-        is_record = lambda line: try_else(lambda: isinstance(json.loads(line),list), False)
+        def is_record(line):
+            try:
+                return isinstance(json.loads(line),list)
+            except ValueError:
+                return False
+
         lines,clean = [],True
 
         try:
             for line in DiskSource(result_file).read():
                 if line.strip(): lines.append(line)
-        except (EOFError,OSError,zlib.error):
+        except (EOFError,gzip.BadGzipFile,zlib.error):
+            #only what a partly written gz member gives. Anything else (we can't open or read the
+            #file right now) must reach the caller: below we'd rewrite the file without its records.
             clean = False
 
         while lines and not is_record(lines[-1]):
